@@ -336,19 +336,19 @@ func (cw *CountingWindow) getKey(data any) string {
 	v := reflect.ValueOf(data)
 	keyParts := make([]string, 0, len(keys))
 	for _, k := range keys {
-		var part string
+		part := cast.NullKeyPart
 		switch v.Kind() {
 		case reflect.Map:
 			if v.Type().Key().Kind() == reflect.String {
 				mv := v.MapIndex(reflect.ValueOf(k))
 				if mv.IsValid() {
-					part = cast.ToString(mv.Interface())
+					part = cast.KeyPart(mv.Interface(), '|')
 				}
 			}
 		case reflect.Struct:
 			f := v.FieldByName(k)
 			if f.IsValid() {
-				part = cast.ToString(f.Interface())
+				part = cast.KeyPart(f.Interface(), '|')
 			}
 		}
 		keyParts = append(keyParts, part)
